@@ -118,6 +118,61 @@ def parseObjective (s : String) : Option Objective :=
   | ["klarge", k] => k.toNat?.map .minKLargest
   | _ => none
 
+/-- heap op sequences: `new:3;add:0,7:3,1;copy:0;sort:0;addempty:0,2;remove:0,1;concat:0,1;combine:0,1,2,0` -/
+def parseHeapOp (t : String) : Option (Heap.Op Item) :=
+  match t.splitOn ":" with
+  | ["new", k] => k.toNat?.map .new
+  | ["copy", h] => h.toNat?.map .copy
+  | ["sort", h] => h.toNat?.map .sort
+  | ["addempty", r] => match r.splitOn "," with
+      | [h, n] => do pure (.addEmpty (← h.toNat?) (← n.toNat?))
+      | _ => none
+  | ["remove", r] => match r.splitOn "," with
+      | [h, n] => do pure (.remove (← h.toNat?) (← n.toNat?))
+      | _ => none
+  | ["concat", r] => match r.splitOn "," with
+      | [a, b] => do pure (.concat (← a.toNat?) (← b.toNat?))
+      | _ => none
+  | ["combine", r] => match r.splitOn "," with
+      | [a, i, b, j] => do pure (.combine (← a.toNat?) (← i.toNat?) (← b.toNat?) (← j.toNat?))
+      | _ => none
+  | ["add", h, r] => match r.splitOn "," with       -- add:<h>,<id>:<val>,<i>  splits on ':' into ["add", "<h>,<id>", "<val>,<i>"]
+      | [val, i] => match h.splitOn "," with
+          | [hh, id] => do pure (.add (← hh.toNat?) ((← id.toNat?), (← val.toNat?)) (← i.toNat?))
+          | _ => none
+      | _ => none
+  | _ => none
+
+def parseHeapOps (s : String) : Option (List (Heap.Op Item)) :=
+  if s == "~" then some [] else (s.splitOn ";").mapM parseHeapOp
+
+def jOptBins (o : Option (Bins Item)) : String :=
+  match o with
+  | some b => jBins b
+  | none => "null"
+
+def parseCon (t : String) : Option ILP.Con :=
+  match t.splitOn ":" with
+  | ["seq", c] => c.toNat?.map .smallestEq
+  | ["lle", c] => c.toNat?.map .largestLe
+  | ["sge", c] => c.toNat?.map .smallestGe
+  | _ => none
+
+def parseCons (s : String) : Option (List ILP.Con) :=
+  if s == "~" then some [] else (s.splitOn ",").mapM parseCon
+
+def parseSpec (a : Args) : Option ILP.Spec := do
+  pure { k := (← a.nat "k"), vals := (← a.nats "vals"), copies := (← a.nats "copies"), weights := (← a.nats "weights"),
+         obj := (← a.get "obj" >>= parseObjective), cons := (← a.get "cons" >>= parseCons) }
+
+def jSense : ILP.Sense → String
+  | .le => "\"<\""
+  | .eq => "\"=\""
+  | .ge => "\">\""
+
+def jRow (r : ILP.Row) : String :=
+  "{\"coeffs\":" ++ jList jRat r.coeffs ++ ",\"sense\":" ++ jSense r.sense ++ ",\"rhs\":" ++ jRat r.rhs ++ "}"
+
 /-! ### dispatch -/
 
 def dispatch (op : String) (a : Args) : Option String :=
@@ -210,6 +265,33 @@ def dispatch (op : String) (a : Args) : Option String :=
       pure (match optBalanced (d.getD (vals.length + 1)) vals with
             | some m => toString m
             | none => "{\"none\":true}")
+  | "heap" => do
+      -- the reference-level model: every array (live or handed over) after every operation
+      let ops ← a.get "ops" >>= parseHeapOps
+      pure (jList (fun (o : Option (List (Bins Item))) => match o with
+                    | some l => jList jBins l
+                    | none => "{\"error\":\"IndexError\"}") (Heap.trace val Heap.State.init ops))
+  | "heap_pure" => do
+      -- the specification: the pool of immutable values under the hand-over discipline (null = handed over)
+      let ops ← a.get "ops" >>= parseHeapOps
+      pure (match Heap.pureRun val [] ops with
+            | some p => jList jOptBins p
+            | none => "{\"undisciplined\":true}")
+  | "ilp_rows" => do
+      let sp ← parseSpec a
+      pure ("{\"rows\":" ++ jList jRow (ILP.rows sp) ++ ",\"objective\":" ++ jList jRat (ILP.objExpr sp) ++ "}")
+  | "ilp_opt" => do
+      let sp ← parseSpec a
+      pure (match ILP.ilpBest sp with
+            | some x => jRat x
+            | none => "{\"none\":true}")
+  | "ilp_point" => do
+      let sp ← parseSpec a
+      let p ← a.get "counts" >>= parseBinsOf parseNatList
+      let items : List Item := (List.range sp.vals.length).map fun i => (i, sp.vals.getD i 0)
+      pure ("{\"satisfies\":" ++ toString (ILP.satisfies sp p) ++ ",\"feasible\":" ++ toString (ILP.feasible sp p) ++
+            ",\"objvalue\":" ++ jRat (ILP.objValue sp p) ++ ",\"docvalue\":" ++ jRat (ILP.docValue sp.obj (ILP.wSums sp p)) ++
+            ",\"decoded\":" ++ jBins (ILP.decode val sp items p) ++ "}")
   | "objvalue" => do
       let o ← a.get "obj" >>= parseObjective
       pure (jInt (o.value (← a.nats "sums") (← a.bool "sorted")))
